@@ -19,8 +19,8 @@ import (
 func Trace(w http.ResponseWriter, r *http.Request, body bool) error {
 	text, err := httputil.DumpRequest(r, body)
 	if err == nil {
+		w.Header().Set(header.ContentType, header.MessageHTTP) // 必须在 WriteHeader 之前，否则不会被发送。
 		w.WriteHeader(http.StatusOK)
-		w.Header().Set(header.ContentType, header.MessageHTTP)
 		_, err = w.Write([]byte(html.EscapeString(string(text))))
 	}
 
